@@ -65,6 +65,7 @@ type Exec struct {
 	times    map[int64]int64
 	txBytes  map[[2]int][]byte
 	txSpecs  map[[2]int]TxSpec
+	exited   *int // set by the exit seam: the application called os.Exit(code) inside the current call
 	txIndex  map[string]*abci.ResponseDeliverTx // what Tendermint's tx index answers: the latest result recorded under the hash
 	history  []*blockRecord
 	initReq  abci.RequestInitChain
@@ -138,6 +139,13 @@ func (e *Exec) call(r *replica, fn func()) (pan interface{}) {
 	r.calls++
 	core.SetMapSeed(core.SplitMix64(r.cfg.MapSeed ^ (r.calls * 0x9E3779B97F4A7C15)))
 	core.SetWallClock(e.wallNs + r.cfg.ClockSkewNs + int64(r.calls))
+	e.exited = nil
+	core.SetExitHook(func(code int) {
+		// the code under test ends the process: the simulator notes it and unwinds the call instead
+		c := code
+		e.exited = &c
+		panic(processExit{code})
+	})
 	if r.stallFrom >= 0 && core.TimerSeamAvailable {
 		logHook = func() {
 			r.logLines++
@@ -148,6 +156,7 @@ func (e *Exec) call(r *replica, fn func()) (pan interface{}) {
 	}
 	defer func() {
 		logHook = nil
+		core.SetExitHook(nil)
 		core.ClearWallClock()
 		core.ClearMapSeed()
 		if x := recover(); x != nil {
@@ -175,6 +184,9 @@ func (e *Exec) stall() {
 		}
 	}
 }
+
+// processExit is what the exit seam panics with when the application calls os.Exit inside an ABCI call.
+type processExit struct{ code int }
 
 var baseGoroutines = 0
 
@@ -858,6 +870,13 @@ func (e *Exec) oneReadOnly(r *replica, ro *ReadOnly, h int64) {
 		}
 	}
 	e.res.Stats.C("readonly_"+ro.Kind, 1)
+	if e.exited != nil {
+		e.addViol(viol("C11", "process-exited", e.step, map[string]string{"call": ro.Kind},
+			"a %s call made the application end the process (os.Exit(%d))", ro.Kind, *e.exited))
+		r.halted = "process exited in a read-only call"
+		e.stopped = true
+		return
+	}
 	if p != nil {
 		if _, isCrash := p.(simdb.Crash); isCrash {
 			e.harness("crash sentinel outside Commit")
@@ -937,7 +956,16 @@ func (e *Exec) deliver(bi, ti int, rec *blockRecord, h int64) {
 		if _, isCrash := p.(simdb.Crash); isCrash {
 			e.harness("crash sentinel outside Commit")
 		}
-		e.addViol(viol("C11", "panic-escaped", e.step, map[string]string{"call": "DeliverTx", "kind": spec.Kind}, "a panic escaped DeliverTx: %s", haltCause(p)))
+		if _, isExit := p.(processExit); !isExit {
+			e.addViol(viol("C11", "panic-escaped", e.step, map[string]string{"call": "DeliverTx", "kind": spec.Kind}, "a panic escaped DeliverTx: %s", haltCause(p)))
+			e.stopped = true
+			return
+		}
+	}
+	if e.exited != nil {
+		// (a panic the application recovered on the way out does not bring the process back)
+		e.addViol(viol("C11", "process-exited", e.step, map[string]string{"call": "DeliverTx", "kind": spec.Kind},
+			"delivering a %s transaction made the application end the process (os.Exit(%d)): a transaction, accepted or refused, must leave the process running", spec.Kind, *e.exited))
 		e.stopped = true
 		return
 	}
